@@ -1382,6 +1382,7 @@ func TestVerifC20(t *testing.T) {
 	if os.Geteuid() == 0 {
 		e.nobody = 65534
 	}
+	out.Note(fmt.Sprintf("C20 environment: strace=%q euid=%d (unwritable-directory runs drop to uid %d); tmpfs and strace tampering are probed per run and counted as skip:* when unavailable", e.strace, os.Geteuid(), e.nobody))
 	if rp := vlib.Replay(); rp != "" {
 		c20Replay(t, e, rp)
 		return
@@ -1438,7 +1439,7 @@ func TestVerifC20(t *testing.T) {
 		scs := make([]*c20Scenario, n)
 		kinds := make([]string, n)
 		for i := 0; i < n; i++ {
-			st := e.strace != "" && i%8 == 0
+			st := e.strace != "" && i%5 == 0
 			scs[i] = e.scenarioKill(r, st)
 			kinds[i] = "kill"
 			if st {
